@@ -161,6 +161,37 @@ def splitFeatures (s : Str) : QFeat :=
       k5 := f.k5 || g.k5, k6 := f.k6 || g.k6, k7 := f.k7 || g.k7 }) {}
 
 
+/-- K7: inside a `${…}` (opened outside single quotes) a `}` occurs within quotes.  The shell's
+    parameter expansion extends over it, bashlex's `_paramexpand` stops at the first `}`: the two
+    disagree about which text is the expansion.  `stack` = quote states saved at each open `${`. -/
+def k7Go : Nat → List QState → QState → Str → Bool
+  | 0, _, _, _ => false
+  | _, _, _, [] => false
+  | fuel + 1, stack, st, c :: rest =>
+    match st with
+    | 1 =>
+      if c == '\'' then k7Go fuel stack 0 rest
+      else if c == '}' && !stack.isEmpty then true
+      else k7Go fuel stack 1 rest
+    | 2 =>
+      if c == '"' then k7Go fuel stack 0 rest
+      else if c == '\\' then k7Go fuel stack 2 (rest.drop 1)
+      else if c == '$' && rest.head? == some '{' then k7Go fuel (2 :: stack) 0 (rest.drop 1)
+      else if c == '}' && !stack.isEmpty then true
+      else k7Go fuel stack 2 rest
+    | _ =>
+      if c == '\\' then k7Go fuel stack 0 (rest.drop 1)
+      else if c == '\'' && stack.head? != some 2 then k7Go fuel stack 1 rest
+      else if c == '"' then k7Go fuel stack 2 rest
+      else if c == '$' && rest.head? == some '{' then k7Go fuel (0 :: stack) 0 (rest.drop 1)
+      else if c == '}' then
+        match stack with
+        | q :: stack' => k7Go fuel stack' q rest
+        | [] => k7Go fuel [] 0 rest
+      else k7Go fuel stack 0 rest
+
+def k7 (t : Str) : Bool := k7Go (t.length + 1) [] 0 t
+
 /-- is position `i` (relative to the word start `base`) inside a recorded expansion part that
     is kept verbatim -/
 def verbatimOf (base : Nat) (src : Str) (parts : List Node) (i : Nat) : Bool :=
@@ -175,7 +206,7 @@ def wordViol (s : Str) (ctx : String) (n : Node) : List Viol :=
   | .word p w ps | .assignment p w ps =>
     let t := Str.slice s p.1 p.2
     let want := quoteRemove (verbatimOf p.1 s ps) t
-    if w == want then [] else ["value-mismatch" ++ (quoteFeatures t).tags ++ ctx]
+    if w == want then [] else ["value-mismatch" ++ (quoteFeatures t).tags ++ (if k7 t then "+K7" else "") ++ ctx]
   | _ => []
 
 mutual
@@ -186,6 +217,8 @@ def quoteOKN (s : Str) (ctx : String) : Node → List Viol
   | n@(.word p _ ps) | n@(.assignment p _ ps) =>
     let t := Str.slice s p.1 p.2
     let ctx' := if hasContinuation t then addCtx ctx "+cont" else ctx
+    -- D32: a redirection operator glued to the word and followed by a continuation stays in the span
+    let ctx' := if endsWith t ['<', '\\'] || endsWith t ['>', '\\'] then addCtx ctx' "+redircont" else ctx'
     let ctxp := if (stripContinuations t).contains '\n' then addCtx ctx' "+nlword" else ctx'
     -- (a continuation inside an expansion is removed from the value although expansions are verbatim)
     wordViol s ctx' n ++ quoteOKL s ctxp ps
